@@ -788,7 +788,7 @@ def gen_shared_container_group(rng, base):
 def projects(ctx):
     rng = ctx.rng
     projs = [[c] for c in corpus()]
-    nproj = ctx.scale(60, 700)
+    nproj = ctx.scale(50, 700)
     tid = 0
     for i in range(nproj):
         specs = []
@@ -857,7 +857,7 @@ def check_projects(ctx, projs, results):
                     ctx.dist["e2e:" + tag] += 1
             for kind, msg, finding in oracle(spec, o):
                 rep = {"layer": "e2e", "spec": spec}
-                if spec.get("kwargs_var") or spec.get("shared"):
+                if any(sp.get("kwargs_var") or sp.get("shared") for sp in specs):
                     rep["project"] = specs      # objects shared between declarations: the module as a whole is the input
                 ctx.violation(f"{kind}: {msg}", rep, finding=finding)
             if drv is not None:
@@ -962,7 +962,7 @@ def check_sequences(ctx, seqs, results):
 
 
 def campaign(ctx):
-    seqs = [gen_sequence(ctx.rng, f"q{i}") for i in range(ctx.scale(8, 60))]
+    seqs = [gen_sequence(ctx.rng, f"q{i}") for i in range(ctx.scale(6, 60))]
     check_sequences(ctx, seqs, run_sequences(seqs, nproc=8 if ctx.thorough else 4))
     projs = projects(ctx)
     results = run_projects(projs, nservers=8 if ctx.thorough else 4)
